@@ -7,6 +7,60 @@ From TF Require Import Merkle MerkleSpec MerkleProofs.
 Import ListNotations.
 Open Scope Z_scope.
 
+(* ---- verification is exact: accepted iff the claimed leafs and the supplied digests, placed at the positions
+   determined by the indices and the height, hash to the root using exactly the minimal node set.
+   Any digest type with decidable equality, any pair hash; both build modes; all usize inputs. *)
+Theorem C04_verify_iff : forall (D : Type) (H : D -> D -> D) (Deqb : D -> D -> bool) (dflt : D),
+  (forall a b : D, Deqb a b = true <-> a = b) ->
+  forall (m : mmode) (p : iproof D) (root : D), wf_proof D p ->
+  (ip_verify D H Deqb m p root = Ok true <-> verify_spec D H dflt p root).
+Proof. exact verify_iff_lemma. Qed.
+Print Assumptions C04_verify_iff.
+
+Example C04_verify_iff_accepts :
+  let p := MkProof 3 [(0, Atom 0); (2, Atom 2)] [Atom 3; Atom 1; Node (Node (Atom 4) (Atom 5)) (Node (Atom 6) (Atom 7))] in
+  wf_proof term p /\ ip_verify term Node term_eqb Release p (znth term Dflt wit_tree 1) = Ok true /\
+  ip_verify term Node term_eqb Checked p (Atom 9) = Ok false.
+Proof. cbv zeta. split; [split; [discriminate|]|split; vm_compute; reflexivity].
+  intros i [<-|[<-|[]]]; discriminate. Qed.
+
+(* ---- sound: an accepted non-trivial proof of the stated height against the root of an honestly built tree
+   claims only actual leafs of that tree -- or a collision of H is exhibited *)
+Theorem C04_sound : forall (D : Type) (H : D -> D -> D) (Deqb : D -> D -> bool) (dflt : D),
+  (forall a b : D, Deqb a b = true <-> a = b) ->
+  forall (m : mmode) (leafs : list D) (p : iproof D),
+  0 <= ip_height p <= 31 -> zlen leafs = 2 ^ ip_height p -> wf_proof D p ->
+  is_trivial D p = false ->
+  ip_verify D H Deqb m p (znth D dflt (spec_tree D H dflt leafs) 1) = Ok true ->
+  (forall i d, In (i, d) (ip_leafs p) -> i < zlen leafs /\ d = znth D dflt leafs i) \/ collision D H.
+Proof. exact sound_lemma. Qed.
+Print Assumptions C04_sound.
+
+(* ---- total: verify returns a verdict, into_authentication_paths a list or an error; never a panic, never out of
+   fuel; arbitrary usize height / indices / lengths; both build modes *)
+Theorem C04_total : forall (D : Type) (H : D -> D -> D) (Deqb : D -> D -> bool) (dflt : D),
+  (forall a b : D, Deqb a b = true <-> a = b) ->
+  forall (m : mmode) (p : iproof D) (root : D), wf_proof D p ->
+  (exists b, ip_verify D H Deqb m p root = Ok b) /\
+  ((exists r, ip_into_authentication_paths D H Deqb m p = Ok r) \/
+   ip_into_authentication_paths D H Deqb m p = Err).
+Proof. exact total_lemma. Qed.
+Print Assumptions C04_total.
+
+(* ---- paths_spec: path expansion succeeds exactly on structurally valid proofs and yields, per claimed leaf in
+   the given order, the sibling digests of the partial tree from the leaf level upwards *)
+Theorem C04_paths_spec : forall (D : Type) (H : D -> D -> D) (Deqb : D -> D -> bool) (dflt : D),
+  (forall a b : D, Deqb a b = true <-> a = b) ->
+  forall (m : mmode) (p : iproof D), wf_proof D p ->
+  (structure_ok D p /\
+   ip_into_authentication_paths D H Deqb m p =
+     Ok (map (fun i => sibling_path D H dflt (2 ^ ip_height p) (ip_leafs p) (ip_auth p) (Z.to_nat (ip_height p))
+                                    (2 ^ ip_height p + i) (Z.to_nat (ip_height p)))
+             (map fst (ip_leafs p)))) \/
+  (~ structure_ok D p /\ ip_into_authentication_paths D H Deqb m p = Err).
+Proof. exact paths_spec_lemma. Qed.
+Print Assumptions C04_paths_spec.
+
 (* ---- accessors: exact for every usize index in both build modes (current tree) *)
 Theorem C04_accessors_total : forall (D : Type) (H : D -> D -> D) (dflt : D) (leafs : list D),
   is_pow2 (zlen leafs) = true -> zlen leafs <= 2 ^ 63 ->
